@@ -15,7 +15,6 @@ import (
 	"context"
 	"encoding/binary"
 	"fmt"
-	"io"
 	"math/rand"
 	"net"
 	"os"
@@ -321,10 +320,6 @@ func runWcut(p *wcutPlan) (ln line) {
 		// the code of a cut: what the Writer's error log shows for that attempt when the log and
 		// the broker agree on the number of failed attempts of the partition
 		elog.mu.Lock()
-		codes := map[int]error{}
-		if p.hasCuts() {
-			codes[cutCode] = fmt.Errorf("kafka.(*Client).Produce: %w", io.ErrUnexpectedEOF)
-		}
 		regionErr := map[int]error{}
 		for part, rs := range byPart {
 			var cuts []*wcutReq
@@ -338,7 +333,6 @@ func runWcut(p *wcutPlan) (ln line) {
 				code := cutCode
 				if len(errs) == len(cuts) {
 					code = fakert.Classify(errs[i])
-					codes[code] = errs[i]
 					if r.cut {
 						regionErr[r.region] = errs[i]
 					}
@@ -354,7 +348,7 @@ func runWcut(p *wcutPlan) (ln line) {
 		elog.mu.Unlock()
 		if os.Getenv("WCUT_DEBUG") != "" {
 			for reg, err := range regionErr {
-				fmt.Fprintf(os.Stderr, "wcut: cut in %s: %q code %x retriable=%v\n", regionNames[reg], err.Error(), fakert.Classify(err), kafka.VerifRetriable(err))
+				fmt.Fprintf(os.Stderr, "wcut: cut in %s: %q code %x\n", regionNames[reg], err.Error(), fakert.Classify(err))
 			}
 		}
 		var parts []int
@@ -436,9 +430,6 @@ func runWcut(p *wcutPlan) (ln line) {
 		sort.Slice(failedIDs, func(i, j int) bool { return failedIDs[i] < failedIDs[j] })
 		sort.Slice(okList, func(i, j int) bool { return okList[i] < okList[j] })
 		for _, id := range failedIDs {
-			if reached[id] < p.maxAttempts && kafka.VerifRetriable(failIDs[id]) {
-				flag("ANOMALY:gave-up-early")
-			}
 			if reached[id] >= p.maxAttempts {
 				exhausted = true
 			}
@@ -453,20 +444,11 @@ func runWcut(p *wcutPlan) (ln line) {
 			feat["exhausted"] = true
 		}
 
-		var retr []int
-		for code, err := range codes {
-			if kafka.VerifRetriable(err) {
-				retr = append(retr, code)
-			}
-		}
-		sort.Ints(retr)
+		// the retriable list is fixed by the specification (a cut answer is an unexpected EOF,
+		// which is retriable), not asked of the code under test
 		rs := "."
-		if len(retr) > 0 {
-			l := make([]string, len(retr))
-			for i, c := range retr {
-				l[i] = hx(c)
-			}
-			rs = strings.Join(l, ";")
+		if p.hasCuts() {
+			rs = hx(cutCode)
 		}
 		cfg := fmt.Sprintf("cfg=%s,%s,%s,%s,0,%s,%s", hx(p.batchSize), hx(1048576), hx(p.maxAttempts), kvfmt.Bool(p.async), rs, kvfmt.Bool(det))
 
